@@ -763,6 +763,53 @@ def r4_11(ctx, rc):
                     prog.loc(m, call), key=key)
     if n < 3:
         raise AnalysisError('only %d removals from the removed sets' % n)
+    # sibling sets: where a path is established to exist as a directory
+    # (it is taken out of more than one of the "gone" sets at once), it is
+    # taken out of all of them - removed directories, maybe-removed
+    # directories and removed files: an entry left in one of them keeps
+    # answering "gone" for a directory that is there
+    NEG = ('_removed_dirs', '_maybe_removed_dirs', '_removed_files')
+    k = 0
+    for m in cls.methods.values():
+        if m.name == '__init__':
+            continue
+        by_arg = {}
+        for call in prog.calls_in(m):
+            f = call.func
+            if isinstance(f, ast.Attribute) and f.attr == 'discard' and \
+                    isinstance(f.value, ast.Attribute) and \
+                    f.value.attr in NEG and call.args:
+                cn0 = ctx.H.node_of(m, call)
+                x = ctx.H.subst(call.args[0], m, cn0[0]) if cn0 else \
+                    call.args[0]
+                by_arg.setdefault(ast.dump(x), (x, set(), call))[1].add(
+                    f.value.attr)
+        for x, attrs, call in by_arg.values():
+            if len(attrs) < 2 and not any(
+                    isinstance(c.func, ast.Attribute) and
+                    c.func.attr == 'add' and isinstance(
+                        c.func.value, ast.Attribute) and
+                    c.func.value.attr == '_exists_dirs'
+                    for c in prog.calls_in(m)):
+                continue
+            k += 1
+            key = '%s forgets %s in all of the gone-sets' % (
+                m.qualname, ast.unparse(x)[:30])
+            if attrs >= set(NEG):
+                rc.ok({'function': m.qualname, 'sets': sorted(attrs)},
+                      key=key)
+            else:
+                rc.violation(
+                    'exists-not-forgotten | ' + m.qualname,
+                    '%s establishes that %s exists but takes it out of %s '
+                    'only, not of %s: the view keeps answering "removed" '
+                    'for a directory that exists' % (
+                        m.qualname, ast.unparse(x)[:30], sorted(attrs),
+                        sorted(set(NEG) - attrs)),
+                    prog.loc(m, call), key=key)
+    if k == 0:
+        raise AnalysisError('no function establishing that a directory '
+                            'exists found in BuildDirs')
 
 
 def _removed_scan(ctx):
@@ -788,6 +835,12 @@ def _removed_scan(ctx):
                         and isinstance(t.ops[0], ast.In) and isinstance(
                             t.comparators[0], ast.Attribute):
                     memo = t.comparators[0].attr
+        elif isinstance(st.value, ast.Compare) and len(
+                st.value.ops) == 1 and isinstance(
+                    st.value.ops[0], ast.In) and isinstance(
+                    st.value.comparators[0], ast.Attribute):
+            # ``return d in self._removed`` answers True exactly for members
+            memo = memo or st.value.comparators[0].attr
         elif isinstance(st.value, ast.Call):
             for g in prog.resolve_call(st.value, Qf):
                 if isinstance(g, Func) and g.cls == Qf.cls:
@@ -870,41 +923,52 @@ def r4_9(ctx, rc):
     r9_6(ctx, rc)
 
 
+def memo_first(ctx, rc, Qf, memo, scan):
+    """The query consults the memo of confirmed removals before it scans: a
+    directory that is in both sets (confirmed removed earlier, queued again
+    by a later failed output) must not be scanned again - the scan would
+    judge it by whatever a failed set-up left on disk."""
+    sg = ctx.E.super(Qf, lambda g: False)
+
+    def not_in_memo(lab):
+        if not (isinstance(lab, tuple) and len(lab) == 4 and
+                lab[0] in ('T', 'F')):
+            return False
+        a = lab[1]
+        if not (isinstance(a, ast.Compare) and len(a.ops) == 1 and
+                isinstance(a.ops[0], (ast.In, ast.NotIn)) and isinstance(
+                    a.comparators[0], ast.Attribute) and
+                a.comparators[0].attr == memo):
+            return False
+        return (lab[0] == 'F') == isinstance(a.ops[0], ast.In)
+    seen = sg.reach([sg.entry], edge_ok=lambda a, b, lab:
+                    not not_in_memo(lab))
+    hit = [x for x in sg.nodes if Q.is_call(x, scan.qualname) and
+           x.id in seen]
+    key = '%s asks .%s before scanning' % (Qf.qualname, memo)
+    if hit:
+        rc.violation(
+            'scan-before-memo | ' + Qf.qualname,
+            '%s can scan a directory without having found it absent from '
+            '.%s: a directory already confirmed removed is judged again by '
+            'what is on disk (a stale output left by a failed set-up makes '
+            'it "present": the view, the recorded directories and clean '
+            'disagree)' % (Qf.qualname, memo), hit[0].where(),
+            sg.describe_path(sg.witness(seen, hit[0].id)), key=key)
+    else:
+        rc.ok({'query': Qf.qualname, 'memo': memo, 'order': 'memo first'},
+              key=key)
+
+
 def r4_10(ctx, rc):
     """Verdict/memo agreement of the removed-directory scan: the scan takes
     the directory out of the "maybe removed" set, so its answer is only
     stable if "removed" is memoised in the set the query consults first - a
     True that is not recorded is answered False by the next query for the
     same path (two queries disagree)."""
-    from ..astpaths import cond_paths
     prog = ctx.prog
-    Qf = ctx.E.func('BuildDirs.is_removed_norm_case')
-    memo = None
-    scan = None
-    rets = {r.value.id for r in ast.walk(Qf.node)
-            if isinstance(r, ast.Return) and isinstance(r.value, ast.Name)}
-    for conds, st0 in cond_paths(Qf.node.body):
-        # ``return V`` or ``result = V`` with the result variable returned
-        st = st0
-        if isinstance(st, ast.Assign) and len(st.targets) == 1 and \
-                isinstance(st.targets[0], ast.Name) and \
-                st.targets[0].id in rets:
-            st = ast.Return(value=st.value)
-        if not isinstance(st, ast.Return) or st.value is None:
-            continue
-        if isinstance(st.value, ast.Constant) and st.value.value is True:
-            for t, pol in conds:
-                if pol and isinstance(t, ast.Compare) and len(t.ops) == 1 \
-                        and isinstance(t.ops[0], ast.In) and isinstance(
-                            t.comparators[0], ast.Attribute):
-                    memo = t.comparators[0].attr
-        elif isinstance(st.value, ast.Call):
-            for g in prog.resolve_call(st.value, Qf):
-                if isinstance(g, Func) and g.cls == Qf.cls:
-                    scan = g
-    if memo is None or scan is None:
-        raise AnalysisError('removed-directory memo / scan not identified '
-                            'in ' + Qf.qualname)
+    Qf, memo, scan = _removed_scan(ctx)
+    memo_first(ctx, rc, Qf, memo, scan)
     sg = ctx.E.super(scan, lambda g: False)
     p = scan.params[0] if scan.params else None
 
@@ -932,6 +996,14 @@ def r4_10(ctx, rc):
         rc.ok({'scan': scan.qualname, 'memo': memo}, key=key)
 
 
+def r4_13(ctx, rc):
+    """Every record nested in a reused subtree is registered in the new
+    cache (R8.2b): an output that is not registered is invisible to every
+    query although its directory is reserved, and is deleted at commit."""
+    from .c08 import r8_2b
+    r8_2b(ctx, rc)
+
+
 RULES = [
     ('R4.1', 'exists == is_file or is_dir (abstract evaluation)', r4_1),
     ('R4.2', 'one kernel decides the type of a path', r4_2),
@@ -947,4 +1019,6 @@ RULES = [
     ('R4.11', 'removed-knowledge is dropped only for unreserved dirs',
      r4_11),
     ('R4.12', 'a vanished directory is answered "removed"', r4_12),
+    ('R4.13', 'a reused subtree registers every nested record (R8.2b)',
+     r4_13),
 ]
